@@ -51,6 +51,29 @@ func Schemas(thorough bool) (schemas []M, leaves []M, comps M) {
 			leaves = append(leaves, Merge(s, M{"exclusiveMaximum": true}))
 		}
 	}
+	// a second parameterisation on the negative side (sign handling of bounds and multipleOf)
+	for _, kws := range Subsets([]M{{"minimum": -20}, {"maximum": -5}, {"multipleOf": 5}}) {
+		if len(kws) < 2 {
+			continue
+		}
+		s := Merge(append([]M{{"type": "integer"}}, kws...)...)
+		leaves = append(leaves, s)
+		if _, ok := s["minimum"]; ok {
+			leaves = append(leaves, Merge(s, M{"exclusiveMinimum": true}))
+		}
+		if _, ok := s["maximum"]; ok {
+			leaves = append(leaves, Merge(s, M{"exclusiveMaximum": true}))
+		}
+	}
+	for _, kws := range Subsets([]M{{"minimum": -2.5}, {"maximum": -0.5}, {"multipleOf": 0.25}}) {
+		if len(kws) < 2 {
+			continue
+		}
+		leaves = append(leaves, Merge(append([]M{{"type": "number"}}, kws...)...))
+	}
+	leaves = append(leaves, M{"type": "integer", "minimum": -3, "maximum": 3, "multipleOf": 3}, M{"type": "integer", "format": "int32", "maximum": -1, "multipleOf": 3},
+		M{"type": "integer", "format": "int64", "minimum": -7, "exclusiveMinimum": true, "maximum": 7, "exclusiveMaximum": true, "multipleOf": 7},
+		M{"type": "string", "minLength": 3, "maxLength": 3}, M{"type": "string", "minLength": 4})
 	for _, kws := range Subsets([]M{{"minLength": 1}, {"maxLength": 2}, {"pattern": "^a"}}) {
 		leaves = append(leaves, Merge(append([]M{{"type": "string"}}, kws...)...))
 	}
